@@ -25,6 +25,8 @@ def replay(r):
     if k in ("ohe", "roundtrip"):
         s = "".join(chr(c) for c in r["bytes"])
         alphabet, ignore = r["alphabet"], r["ignore"]
+        if r.get("history"):
+            utils.one_hot_encode("".join(alphabet) + r["history"], alphabet=list(alphabet), ignore=list(ignore) + list(r["history"]))
         try:
             Y = utils.one_hot_encode(s, alphabet=list(alphabet), ignore=list(ignore))
         except ValueError as e:
@@ -66,7 +68,7 @@ def replay(r):
         return False, "ok"
     if k == "chunk":
         size, overlap, lengths, Cn = r["size"], r["overlap"], r["lengths"], r["channels"]
-        X = [torch.arange(Cn * L, dtype=torch.float64).reshape(Cn, L) + 1000 * i for i, L in enumerate(lengths)]
+        X = [torch.arange(Cn * L, dtype=torch.float64).reshape(Cn, L) + 1000 * i + 0.1 for i, L in enumerate(lengths)]        # not representable in float32
         try:
             ch = utils.chunk(X, size=size, overlap=overlap)
             y = utils.unchunk(ch, lengths=lengths, overlap=overlap)
@@ -107,6 +109,9 @@ def worker(cfg):
             in_alpha = [s_or(*[c == ord(a) for a in alphabet]) for c in codes]
             in_ign = [s_or(*[c == ord(a) for a in ignore]) if ignore else False for c in codes]
             rp = lambda m: dict(cfg, bytes=[core.model_value(m, c) for c in codes])
+            if cfg.get("history"):
+                # an earlier call with the same alphabet and a LARGER ignore set must not change what this call accepts
+                utils.one_hot_encode("".join(alphabet) + cfg["history"], alphabet=list(alphabet), ignore=list(ignore) + list(cfg["history"]))
             try:
                 Y = utils.one_hot_encode(s, alphabet=list(alphabet), ignore=list(ignore))
             except ValueError as e:
@@ -207,8 +212,8 @@ def worker(cfg):
             size = core.Int("size")
             overlap = core.Int("overlap")
             ctx.assume(s_and(size >= 1, size <= min(lengths), overlap >= 0, overlap < size))
-            X = [T.Tensor(np.array([[core.Real("x%d_%d_%d" % (i, c, p)) for p in range(L)] for c in range(Cn)], dtype=object), dtype="float32")
-                 for i, L in enumerate(lengths)]
+            X = [T.Tensor(np.array([[core.Real("x%d_%d_%d" % (i, c, p)) for p in range(L)] for c in range(Cn)], dtype=object), dtype="float64")
+                 for i, L in enumerate(lengths)]               # double precision in: every value must come back unrounded
             rp = lambda m: dict(cfg, size=core.model_value(m, size), overlap=core.model_value(m, overlap))
             try:
                 chs = utils.chunk(X, size=size, overlap=overlap)
@@ -256,6 +261,8 @@ def configs(tier):
             cf.append(dict(kind="ohe", alphabet=a, ignore=ig, n=n))
         for n in range(1, nmax):
             cf.append(dict(kind="roundtrip", alphabet=a, ignore=ig, n=n))
+    cf.append(dict(kind="ohe", alphabet="ACGT", ignore="N", n=2, history="XZ"))
+    cf.append(dict(kind="roundtrip", alphabet="AC", ignore="", n=2, history="N"))
     for n in range(1, (4 if tier == "quick" else 6)):
         cf.append(dict(kind="rc", n=n))
     maps = [[["A", "T"], ["T", "A"]], [["M", "N"], ["N", "M"]], [["A", "C"], ["C", "A"], ["N", "N"]]]
